@@ -33,6 +33,14 @@ T = {
           "row norms on the basis (dual steepest edge solve), a factorok-resetting edit, then a reallocating QSadd_row(s) (file-read or copied LP)"),
  "C18b": ("C18", "grow_namelist no longer frees the old string buffer when it compacts",
           "a name table overflowing its buffer while at least half of it holds deleted names: 9+ rounds of add 4 columns / delete them"),
+ "C01b": ("C01", "ILLfct_check_dfeasible: `dz<0 && vstat != STAT_UPPER` / `dz>0 && vstat == STAT_UPPER` -- a nonbasic FREE column with positive reduced cost counts as dual feasible",
+          "direct rational simplex (mpq_QSopt_primal with a warm/inherited basis, mpq_QSopt_dual warm or cold) on an LP with a free column that is nonbasic with positive reduced cost at a primal-feasible vertex"),
+ "C08b": ("C08", "write_objective decides the continuation ' +' of a wrapped objective line by looking at the next column only, a zero coefficient counting as 'not negative'",
+          "objective long enough to wrap (>= 256 characters, >= 4 terms), the column after the wrap point has objective 0 and the next non-zero coefficient is negative"),
+ "C11b": ("C11", "transferRanges sets lp->sense[ri] = 'R' before the switch, i.e. also for N rows where ri is -1 (heap underflow by one byte, abort in free)",
+          "MPS file whose OBJNAME names a row declared G/L/E that also has a RANGES entry"),
+ "C19b": ("C19", "ILLlib_writebasis starts the loop that writes the UL records where the XU/XL pairing loop stopped instead of at column 0",
+          "a column nonbasic at its finite upper bound ordered before a basic structural column; -b then -B round trip"),
  "C20b": ("C20", "QSlogv formats into a 512-byte stack buffer; longer messages fall through to fprintf(stderr)",
           "any logged message of 512 bytes or more (malformed file with a kilobyte line, missing file with a 480+ character path)"),
 }
